@@ -319,3 +319,22 @@ def assert_no_empty_group(cst, path):
                 raise ParserHypothesisViolated(f"parser:empty-group in {path}")
             stack.extend(x)
     return cst
+
+
+def exchange_cycles(writer_cls, reader_cls, path, cur, back, same, n=2):
+    """history: ONE exchange file and ONE reader object for every cycle (the writer rewrites the file, the same reader
+    reads it again): each read gives the model a fresh reader gave, and the models returned earlier keep their content"""
+    fails = []
+    reader = reader_cls(path)
+    earlier = []
+    for cyc in range(1, n + 1):
+        writer_cls(path, cur).transform()
+        cur = reader.transform()
+        if not same(spec.dump_fm(cur), back):
+            fails.append((f"exchange-cycle{cyc}:model-differs", "one reader object, file rewritten before every read"))
+            break
+        for fm, d in earlier:
+            if spec.dump_fm(fm) != d:
+                fails.append((f"exchange-cycle{cyc}:model-returned-earlier-changed", ""))
+        earlier.append((cur, spec.dump_fm(cur)))
+    return fails
